@@ -1,7 +1,8 @@
 -------------------------- MODULE ErrorReportTrace --------------------------
 (* Observations of the real ExceptionTrace / Highlighter checked against ErrorReport and Assemble.
    A trace is one event, or - a history - several "render" events: renders of one exception in one process, in order,
-   each with its own ignore pattern and verbosity (its c.ignoring / c.frames[k].ign are those of THAT render); every
+   by fresh ExceptionTrace objects or by one, each with its own ignore pattern, verbosity and UTF-8 support (its
+   c.ignoring / c.frames[k].ign / c.utf8 are those of THAT render); every
    event is decided on its own, which is exactly the claim that earlier renders do not matter.  Events:
      op = "render"     c = the case  [simple, verb, ignoring, name, msg, frames : Seq([ign]), recursion, origin]
                        o = the observation [esc, lines, head, listing, snippets]   (see ErrorReport; a snippet row also
@@ -37,6 +38,7 @@ TRender ==
   /\ Check(tid, l, "P.message", Mode, MessageShown(E.c, E.o))
   /\ Check(tid, l, "P.snippet.numbers", "", AllSn(NumbersOK))
   /\ Check(tid, l, "P.snippet.mark", "", AllSn(MarkOK))
+  /\ Check(tid, l, "P.snippet.glyphs", "", AllSn(LAMBDA sn : AsciiGlyphsOK(E.c, sn)))
   /\ Check(tid, l, "P.snippet.verbatim", FirstBad, AllSn(VerbatimOK))
   /\ Check(tid, l, "P.frames.ignored", "", IgnoredOK(E.c, E.o))
   /\ Check(tid, l, "P.frames.debug", "", E.c.simple \/ DebugShowsIgnored(E.c, E.o))
